@@ -437,6 +437,50 @@ def run(ctx, V):
         if sorted(o["visit"]) != want_v or sorted(o["walk"]) != want_w:
             V.disagreement("subpyramid_restriction", dict(pyramid=[kind, depth, [list(p) for p in table], list(apex), sub]),
                            dict(visit=want_v[:8], walk=want_w[:8]), dict(visit=sorted(o["visit"])[:8], walk=sorted(o["walk"])[:8]), True)
+    # one Pyramid instance used across a sequence of calls: counting / visiting before
+    # subpyramid() (or before changing the documented-mutable `depth`) must not leak into later answers
+    n_reuse = 0
+    from toasty.pyramid import Pos as _Pos
+    for c, o in list(zip(cases, obs)):
+        kind, depth, table, apex, sub = c
+        if not sub or kind == 0 and False:
+            continue
+        if n_reuse >= (25 if tier == "quick" else 200):
+            break
+        n_reuse += 1
+        sink = io.StringIO()
+        with contextlib.redirect_stdout(sink):
+            p = build_pyramid(kind, depth, table, (0, 0, 0), False)
+            p.count_leaf_tiles(), p.count_live_tiles(), p.count_operations()
+            p.visit_leaves(lambda pos, tile: None, parallel=1)
+            p.walk(lambda pos: None, parallel=1)
+            try:
+                p.subpyramid(_Pos(*apex))
+                got = dict(leaf=p.count_leaf_tiles(), live=p.count_live_tiles(), ops=p.count_operations())
+                v, w = [], []
+                p.visit_leaves(lambda pos, tile: v.append(tuple(pos)), parallel=1)
+                p.walk(lambda pos: w.append(tuple(pos)), parallel=1)
+                got["visit"], got["walk"] = v, w
+            except (AssertionError, ValueError, IndexError):
+                got = None
+        want = {k: o[k] for k in ("leaf", "live", "ops", "visit", "walk")}
+        if got != want:
+            V.disagreement("a Pyramid counted/visited before subpyramid() answers like a fresh sub-pyramid",
+                           dict(pyramid=[kind, depth, [list(q) for q in table], list(apex), sub], sequence="count, visit, walk, subpyramid, count, visit, walk"),
+                           {k: (want[k] if not isinstance(want[k], list) else len(want[k])) for k in want},
+                           None if got is None else {k: (got[k] if not isinstance(got[k], list) else len(got[k])) for k in got}, True)
+        if depth >= 2 and kind == 2:
+            with contextlib.redirect_stdout(sink):
+                q = build_pyramid(kind, depth, table, (0, 0, 0), False)
+                q.count_leaf_tiles(), q.count_live_tiles(), q.count_operations()
+                q.depth = depth - 1
+                got2 = (q.count_leaf_tiles(), q.count_live_tiles(), q.count_operations())
+                f = build_pyramid(kind, depth - 1, table, (0, 0, 0), False)
+                want2 = (f.count_leaf_tiles(), f.count_live_tiles(), f.count_operations())
+            if got2 != want2:
+                V.disagreement("counts after changing Pyramid.depth equal those of a fresh pyramid of that depth",
+                               dict(pyramid=[kind, depth, [list(q_) for q_ in table], [0, 0, 0], False], new_depth=depth - 1),
+                               list(want2), list(got2), True)
     # the reported counts must also equal what PARALLEL walks and leaf visits touch
     n_par = 0
     import os
@@ -483,5 +527,5 @@ def run(ctx, V):
                      "(density 0.3-1.0, accept-but-childless shapes) depth 1-5 with random apexes; non-trivial = "
                      "distinct (kind,depth,table,apex,sub) with a pruned subtree or an active sub-pyramid; "
                      "algebra: random positions to depth 60 incl. error branches",
-                exhaustive_part=n_exh, subpyramid_restriction_checks=n_sub, parallel_count_checks=n_par,
+                exhaustive_part=n_exh, subpyramid_restriction_checks=n_sub, parallel_count_checks=n_par, instance_reuse_checks=n_reuse,
                 input_histogram=hist, samples=samples)
